@@ -238,3 +238,21 @@ prop("C08",
      trusted_base=["vlapi/mqttp codec"],
      assumptions=["which subscriptions match is C01's theorem; here they are given"],
 )
+
+prop("C15",
+     coq=["model/Auth.v", "proofs/AuthProofs.v", "chk/C15chk.v", "props/C15.v", "refute/C15.v"],
+     n={"quick": 300, "thorough": 6000, "search": 900},
+     shrink_fields=["queries", "verdicts"], shrink_min=1,
+     rule="2/3 'acl': generated configurations of the built-in authenticator (default ACL read/write each present or absent; plain users; users with their own ACL in all four read/write shapes; a users file "
+          "overriding inline entries; a user defined both plain and enhanced) with patterns ^<prefix>.*$, 10 queries each (known/unknown user, right/wrong password, 5 topics, read/write), run on the REAL "
+          "newSimpleAuth/Password/ACL through the verif-tagged test hook compiled once per run; a panic is an observation. 1/3 'chain': 1-3 scripted authenticators behind clients.Manager (v3.1.1 / v5): "
+          "CONNACK code; after acceptance, per authenticator index j a QoS1 retained publish to a topic only authenticator j forbids (routed to a '#' watcher? retained? PUBACK reason) and a SUBSCRIBE holding "
+          "one filter per index (SUBACK code per filter); after refusal, a session connected under the same client id must still be served. non-trivial = acl case with per-user ACLs or any chain case; distinct by case JSON.",
+     level_text="Theorems (coq/props/C15.v): a CONNECT is accepted iff some configured authenticator accepts, and the permission object is the FIRST accepting one (for every chain); for EVERY configuration of the "
+                "built-in user database an ACL check never panics (no credential ever holds a nil pattern) and a user's rules are exactly those of his last definition, falling back to the defaults rule by rule. "
+                "refute/C15.v: the pre-repair loader. Enforcement (publish not routed, not retained, v5 PUBACK 0x87; SUBACK failure for that filter only; refused CONNECT disturbs nothing) is tied by the differential run "
+                "(the publish/ack side is also C04's theorem). Partial: Go's regexp is an oracle (patterns restricted to prefix patterns in the run); password hashing is compared as strings.",
+     level_note="Trusted: Coq kernel + vm_compute; hand translation of Manager.Password and newSimpleAuth/ACL; Go regexp; sha256; the verif hook (cmd/volantmq/auth_verif_test.go, build tag verif) that only calls the real functions.",
+     trusted_base=["Go regexp", "crypto/sha256", "verif hook commit (test-only)"],
+     assumptions=["patterns used in the run are of the form ^prefix.*$ so that matching is a prefix test"],
+)
